@@ -166,11 +166,13 @@ template <class R> struct Gen;
 template <> struct Gen<Rand32>
 {
     typedef float F;
+    enum { index = 0 };
     static const char* name () { return "Rand32"; }
 };
 template <> struct Gen<Rand48>
 {
     typedef double F;
+    enum { index = 1 };
     static const char* name () { return "Rand48"; }
 };
 
@@ -282,8 +284,13 @@ range_excess (F a, F b, F v)
     return (double) (ex / unit);
 }
 
-// Tolerances (calibration: see lib/props.d/c18.py and the worst ratios in the evidence)
-constexpr double RANGE_TOL  = 8.0;  // nextf(a,b): excess <= RANGE_TOL * (eps*max(|a|,|b|) + denorm_min); a-priori bound 1, observed <= 1
+// Tolerances.  Calibration on the unchanged tree (thorough tier, seed 1): 2.3*10^9 nextf(a,b) calls per generator,
+// 9.6*10^8 draws per sampler; worst ratios observed (recorded with c.worst in every run):
+//   nextf(a,b)        0.9968 (Rand32), 0.9959 (Rand48)  -- a-priori bound 1: two products and one sum, each rounded once
+//   solidSphereRand   0.84  eps above 1 (|v|^2 is tested in T arithmetic by the library, the monitor sums in long double)
+//   hollowSphereRand  1.47  eps (V4d.Rand48)
+// Bounds are >= 8x the worst observation.
+constexpr double RANGE_TOL  = 8.0;  // nextf(a,b): distance outside [min(a,b),max(a,b)] <= RANGE_TOL * (eps*max(|a|,|b|) + denorm_min)
 constexpr double SOLID_TOL  = 8.0;  // solidSphereRand: |v|^2 <= 1 + SOLID_TOL*eps
 constexpr double HOLLOW_TOL = 16.0; // hollowSphereRand: | |v| - 1 | <= HOLLOW_TOL*eps
 
@@ -401,5 +408,44 @@ judge_gsphere (Ctx& c, uint64_t idx, const Vec& v, uint64_t state_before)
 {
     if (!all_finite (v))
         c.fail ("gaussSphereRand." + who<Vec, R> () + ":nonfinite", idx, [&] { return Obj ().kv ("state_before", hex64 (state_before)).raw ("got", vec_json (v)).str (); });
+}
+} // namespace c18
+
+// ---------------------------------------------------------------- termination of the rejection loops
+// solidSphereRand / hollowSphereRand / gaussRand loop until the generator delivers a point
+// in the unit ball.  A generator whose nextf(-1,1) is out of range makes them spin forever,
+// which would silence the whole monitor.  Two defences (both defined in c18_samplers.cpp):
+//  * sampler_probe(): once per process the samplers are run on a few seeds in a detached
+//    thread; if that thread does not finish in 20 s the generator is flagged, every sub-check
+//    records "<sampler>.<generator>:does_not_terminate" and skips the sampler calls;
+//  * SamplerGuard: brackets every sampler call; a watchdog thread ends the process with exit
+//    status 3 (the driver turns that into a "crash:" violation) if one call lasts > 60 s.
+namespace c18
+{
+struct ProbeResult
+{
+    bool        hang[2];  // [0] Rand32, [1] Rand48
+    const char* stage[2]; // function that was executing when the probe gave up
+};
+const ProbeResult& sampler_probe ();
+
+std::atomic<uint32_t>& sampler_slot ();
+extern std::atomic<uint32_t> g_sampler_epoch;
+struct SamplerGuard
+{
+    std::atomic<uint32_t>& s;
+    SamplerGuard () : s (sampler_slot ()) { s.store (g_sampler_epoch.load (std::memory_order_relaxed), std::memory_order_relaxed); }
+    ~SamplerGuard () { s.store (0, std::memory_order_relaxed); }
+};
+
+// record the probe's verdict in the current sub-check (call once per chunk)
+inline void
+report_probe (Ctx& c, uint64_t idx)
+{
+    const ProbeResult& p = sampler_probe ();
+    for (int g = 0; g < 2; ++g)
+        if (p.hang[g])
+            c.fail (std::string (p.stage[g]) + "." + (g ? "Rand48" : "Rand32") + ":does_not_terminate", idx,
+                    [&] { return Obj ().kv ("generator", g ? "Rand48" : "Rand32").kv ("function", p.stage[g]).kv ("note", "probe on seeds 0,1,12345,0xffffffff,~0 did not return within 20 s; sampler calls on this generator are skipped").str (); });
 }
 } // namespace c18
